@@ -161,6 +161,21 @@ def search_pose(seed, n, classes=None, methods=None, thresh=2e-6):
                         if comp.shape != rows.shape or not np.allclose(comp, rows, rtol=1e-12, atol=1e-12 * (1.0 + float(np.max(np.abs(rows), initial=0.0)))):
                             return dict(kind="pose_jacobian", cls=cname, method=mname, self=flat(aa).tolist(), other=(flat(bb).tolist() if bb is not None else None), entry=[0, 0], analytic=comp.tolist(), numeric=rows.tolist(),
                                         deviation=float(np.max(np.abs(comp - rows))) if comp.shape == rows.shape else float("inf"), shape_analytic=list(comp.shape), shape_numeric=list(rows.shape), what="the _compact variant is not the compact-coordinate rows of the full Jacobian"), stats
+                if k % 4 == 1:
+                    first = np.asarray(getattr(a, mname)(b) if b is not None else getattr(a, mname)())
+                    keep = first.copy()
+                    a_o = rand_pose(rng, cname, mild=True)
+                    b_o = rand_pose(rng, cname if kind == "pose" else POINT[cname].__name__, mild=True) if kind else None
+                    for mm in _ops(cname):
+                        try:
+                            bb_o = b_o if _ops(cname)[mm][3] == kind else (rand_pose(rng, cname if _ops(cname)[mm][3] == "pose" else POINT[cname].__name__, mild=True) if _ops(cname)[mm][3] else None)
+                            getattr(a_o, mm)(bb_o) if bb_o is not None else getattr(a_o, mm)()
+                        except Exception:  # noqa
+                            pass
+                    stats["alive_probes"] = stats.get("alive_probes", 0) + 1
+                    if first.tobytes() != keep.tobytes():
+                        return dict(kind="pose_jacobian", cls=cname, method=mname, self=flat(a).tolist(), other=(flat(b).tolist() if b is not None else None), entry=[0, 0], analytic=first.tolist(), numeric=keep.tolist(),
+                                    deviation=float(np.max(np.abs(first - keep))), shape_analytic=list(first.shape), shape_numeric=list(keep.shape), what="a Jacobian returned earlier was overwritten by a later call on other operands"), stats
                 dev, scale, ana, num = check_pose_method(cname, mname, a, b)
                 stats["evaluations"] += 1
                 if not dev <= thresh * scale * (1 + float(np.max(np.abs(flat(a)))) + (float(np.max(np.abs(flat(b)))) if b is not None else 0.0)):
@@ -196,6 +211,14 @@ def make_edge(kind, T, rng, mild=False):
             off = type(off)(o[:2], o[2]) if T == "PoseSE2" else type(off)(o[:3], o[3:])
         n = p1.COMPACT_DIMENSIONALITY
         e = EdgeLandmark([0, 1], np.eye(n), z, offset=off, vertices=[Vertex(0, p0), Vertex(1, p1)])
+    if rng.random() < 0.3:
+        # fixed flags (set by the caller or left behind by an earlier optimize(fix_first_pose=True)) are not operands of the error
+        for v in e.vertices:
+            v.fixed = rng.random() < 0.6
+    if T == "PoseSE3" and rng.random() < 0.1:
+        v = e.vertices[0] if rng.random() < 0.6 else e.vertices[-1]
+        if isinstance(v.pose, PoseSE3):
+            v.pose = PoseSE3(list(np.asarray(v.pose)[:3]), [0.0, 0.0, 0.0, -1.0])
     return e
 
 
